@@ -12,6 +12,7 @@ never consults the model.
 """
 from __future__ import annotations
 
+import ast
 import json
 import os
 import subprocess
@@ -20,40 +21,49 @@ from concurrent.futures import ThreadPoolExecutor
 from typing import Any
 
 from .. import leanio
-from ..core import ROOT, Ctx, load_corpus
+from ..core import ROOT, Ctx, ExtractError, load_corpus
 
 ID = "C20"
 LEVEL = "proof"
-ENGINES = ["lean-model", "kopfsim"]
-TIE = ("A: whole-operator simulations of the real kopf.operator(); one global order log of the atomic segments of "
+ENGINES = ["lean-model", "pyextract", "kopfsim"]
+TIE = ("T: the facts that select the model variant (the orchestrator's done-callback on its ensemble tasks cancels it and the "
+       "failure is re-raised; APINotFoundError is passed over; terminate_redundancies restarts exited tasks; scan_resources gathers "
+       "and cancels its requests) are re-extracted from the AST on every run and proved equal to the model's claims (Kopf/Tie/C20.lean); "
+       "A: whole-operator simulations of the real kopf.operator(); one global order log of the atomic segments of "
        "spawn_tasks/run_tasks/startup_cleanup_activities/orchestrator/watcher/worker/daemons with virtual times, replayed "
        "by the Lean LTS (labels AND the time that may pass between them)")
 LEVEL_TEXT = (
     "Lean theorems for every label list (no bound) of an LTS of the root-task choreography: no_api_before_startup, "
-    "failed_startup_no_api, ready_after_startup, root_failure_stops_all (+ no lingering: time cannot pass while a root task "
-    "has ended and run_tasks still waits), cleanup_last, reraise, daemons_stopped, peering_withdrawn, "
-    "worker_failure_reaches_watcher, exit_bound (exit <= t0 + E + W + D + C + H: exit_timeout, peering withdrawal, daemon exit "
-    "stoppers, cleanup activity, 5 s hung-task grace — under 'tasks honour cancellation' and 'the cleanup activity takes at most C'; "
-    "kopf itself sets no limit for cleanup handlers, so that part is an assumption: partial w.r.t. non-cooperative threads). The "
-    "stream/worker-failure clause is FALSE of the code (finding F3): stream_failure_lingers_witness proves the negation on the model "
-    "as the code is, stream_failure_stops_all_partial / worker_failure_stops_all_partial cover the root observers' own streams and "
-    "workers, and stream_failure_stops_all is proved for the model variant `fixed` that has the missing edge (the check switches to "
-    "that variant by itself once F3 no longer reproduces). The hand-written model is tied to the code by trace acceptance (labels "
-    "and timing) of seeded whole-operator histories. One more defect of the tree is met and listed: C20-F2 (orphaned discovery "
-    "requests during cleanup); C20-F4 (daemon killer crashing on 'dictionary changed size during iteration') was met before /repo "
-    "commit 06bf1c1 repaired it: its witness stays in the corpus and its oracle clause stays strict.")
+    "failed_startup_no_api, ready_after_startup, root_failure_stops_all (+ root_failure_no_lingering: time cannot pass while a "
+    "root task has ended and run_tasks still waits), cleanup_last, reraise, daemons_stopped, peering_withdrawn, "
+    "worker_failure_reaches_watcher, stream_failure_stops_all (THE claim for the stream/worker-failure clause, for the model of the "
+    "current tree `fixed := true`: a failed ensemble task cancels the orchestrator at once, which can only end failed = a root "
+    "failure), gone_is_not_a_failure (HTTP 404 of a watcher whose resource was deleted does not stop anything; exited tasks are "
+    "spawned anew), stream_failure_stops_all_partial / worker_failure_stops_all_partial (the root observers' own streams and "
+    "workers), exit_bound (exit <= t0 + E + W + D + C + H: exit_timeout, peering withdrawal, daemon exit stoppers, cleanup "
+    "activity, 5 s hung-task grace — under 'tasks honour cancellation' and 'the cleanup activity takes at most C'; kopf sets no "
+    "limit for cleanup handlers, so that part is an assumption: partial w.r.t. non-cooperative threads). "
+    "historical_stream_failure_lingers_witness is about the OLD code (variant `fixed := false`, finding F3 before /repo 9ef1bcb) "
+    "and only shows that the hypothesis `fixed` is needed. The hand-written model is tied to the code by (T) an AST extraction of "
+    "the variant-selecting facts re-proved equal on every run and (A) trace acceptance (labels and timing) of seeded "
+    "whole-operator histories. Defects met by this check and repaired in /repo since: F3 (9ef1bcb), C20-F2 (ca0106f), C20-F4 "
+    "(06bf1c1); their witnesses stay in the corpus and their oracle clauses stay strict.")
 THEOREMS = [("Kopf.Props.C20", "Kopf.C20." + n) for n in [
     "no_api_before_startup", "failed_startup_no_api", "ready_after_startup", "root_failure_stops_all",
     "root_failure_no_lingering", "cleanup_last", "reraise", "daemons_stopped", "peering_withdrawn",
     "worker_failure_reaches_watcher", "worker_failure_stops_all_partial", "exit_bound",
-    "stream_failure_lingers_witness", "stream_failure_stops_all_partial", "stream_failure_stops_all"]]
+    "stream_failure_stops_all", "gone_is_not_a_failure", "stream_failure_stops_all_partial",
+    "historical_stream_failure_lingers_witness"]]
+TIE_THEOREMS = [("Kopf.Tie.C20", "Kopf.C20.Tie." + n) for n in [
+    "escalates_eq", "head_is_fixed", "ignores_not_found_eq", "restarts_exited_eq", "scan_cancels_children_eq"]]
 RULE = ("seeded lifecycle histories: 0-2 startup handlers (ok / sleeping / temporary with retries / permanent / retries "
         "exhausted), 0-2 cleanup handlers (ok / sleeping / temporary / permanent), 0-2 daemons (obey / needs cancellation / "
         "swallows one cancellation / exits on its own; with and without cancellation_timeout/backoff), in-flight update handlers "
         "(sleep), 0-3 objects, peering on/off, and ONE trigger placed at every phase (during startup, exactly at its end, during "
         "discovery, while watchers start, steady state, with handlers in flight): stop flag, cancellation of operator(), fatal "
         "ERROR on the resource / peering / CRD watch, a worker exception (poisoned event, failing memo copy), 500s on discovery "
-        "(initial scan, re-scan from a CRD event) and on the peering keep-alive, startup and cleanup handler failures. A case is "
+        "(initial scan, re-scan from a CRD event) and on the peering keep-alive, startup and cleanup handler failures, deletion and "
+        "re-creation of the served CRD (HTTP 404 in the watcher: not a failure; watched again). A case is "
         "distinct by (trigger kind, phase, startup/cleanup outcome shapes, daemon modes, in-flight, peering); non-trivial when a "
         "trigger fires.")
 TRUSTED = ["harness/sim (virtual-time loop, fake API server, scripted handlers) and harness/props/sim_c20.py (attribute-level "
@@ -89,6 +99,82 @@ def ticks(x: float) -> int:
     if abs(v - r) > 1e-6:
         raise ValueError(f"time {x!r} is not a multiple of 1/{TPS} s")
     return int(r)
+
+
+# =================================================================================================
+# Translator (tie T): which variant of the model is the model of THIS source?
+# =================================================================================================
+def _find_def(tree: ast.AST, name: str) -> ast.AST:
+    for n in ast.walk(tree):
+        if isinstance(n, (ast.FunctionDef, ast.AsyncFunctionDef)) and n.name == name:
+            return n
+    raise ExtractError(f"function `{name}` not found")
+
+
+def _calls(node: ast.AST, attr: str) -> list[ast.Call]:
+    return [n for n in ast.walk(node) if isinstance(n, ast.Call) and isinstance(n.func, ast.Attribute) and n.func.attr == attr]
+
+
+def extract(ctx: Ctx) -> None:
+    """Facts of `orchestration.py` / `scanning.py` that decide the model variant, as Lean booleans. Unknown shapes
+    (a function that is not there any more) are an ExtractError; a fact that does not hold is `false`, and then
+    Kopf/Tie/C20.lean no longer proves."""
+    try:
+        otree = ast.parse((ctx.repo / "kopf/_core/reactor/orchestration.py").read_text())
+        stree = ast.parse((ctx.repo / "kopf/_cogs/clients/scanning.py").read_text())
+    except (OSError, SyntaxError) as e:
+        raise ExtractError(f"cannot parse the sources: {e}")
+    orch = _find_def(otree, "orchestrator")
+    inner = [n for n in ast.walk(orch) if isinstance(n, ast.FunctionDef)]
+    # (1) a local callback is attached with add_done_callback to the tasks of the ensemble, inside the adjusting loop
+    loops = [n for n in ast.walk(orch) if isinstance(n, ast.While)]
+    attached = {c.args[0].id for w in loops for c in _calls(w, "add_done_callback")
+                if c.args and isinstance(c.args[0], ast.Name)}
+    callbacks = [f for f in inner if f.name in attached]
+    attaches = bool(callbacks) and any("get_tasks" in ast.unparse(w) for w in loops)
+    # (2) that callback looks at the task's exception and cancels the orchestrator's own task
+    own_task = {t.id for n in ast.walk(orch) if isinstance(n, ast.Assign) and "current_task" in ast.unparse(n.value)
+                for t in n.targets if isinstance(t, ast.Name)}
+    cancels = any(_calls(f, "exception") and any(isinstance(c.func.value, ast.Name) and c.func.value.id in own_task
+                                                   for c in _calls(f, "cancel")) for f in callbacks)
+    # (3) ... but passes over APINotFoundError
+    ignores404 = any(any(isinstance(n, ast.If) and "isinstance" in ast.unparse(n.test) and "APINotFoundError" in ast.unparse(n.test)
+                         and all(isinstance(b, ast.Pass) for b in n.body) for n in ast.walk(f)) for f in callbacks)
+    # (4) the CancelledError handler stops the streams and then raises the recorded error (not only the cancellation)
+    recorded = {n.id for f in callbacks for st in ast.walk(f) if isinstance(st, ast.Nonlocal) for n in
+                [ast.Name(id=x) for x in st.names]}
+    reraises = False
+    for t in [n for n in ast.walk(orch) if isinstance(n, ast.Try)]:
+        for h in t.handlers:
+            if h.type is not None and "CancelledError" in ast.unparse(h.type):
+                src = [ast.unparse(x) for x in h.body]
+                stops = any("aiotasks.stop" in x for x in src)
+                raises = [n for n in ast.walk(h) if isinstance(n, ast.Raise) and isinstance(n.exc, ast.Name) and n.exc.id in recorded]
+                reraises = reraises or (stops and bool(raises))
+    # (5) terminate_redundancies: exited tasks make their key redundant
+    term = _find_def(otree, "terminate_redundancies")
+    comps = [n for n in ast.walk(term) if isinstance(n, ast.SetComp)]
+    done_redundant = any(_calls(c, "done") and "get_tasks" in ast.unparse(c) for c in comps)
+    # (6) scan_resources and its helpers: gather + cancel in finally, no as_completed
+    for name in ("scan_resources", "_read_old_api", "_read_new_apis"):
+        _find_def(stree, name)
+    uses_as_completed = bool(_calls(stree, "as_completed"))
+    helpers = [f for f in ast.walk(stree) if isinstance(f, ast.AsyncFunctionDef) and _calls(f, "gather")]
+    cancels_children = any(any(isinstance(t, ast.Try) and any(_calls(x, "cancel") for x in t.finalbody) for t in ast.walk(f))
+                           for f in helpers)
+    helper_names = {f.name for f in helpers}
+    gathers = bool(helpers) and all(any(isinstance(c.func, ast.Name) and c.func.id in helper_names
+                                        for c in ast.walk(_find_def(stree, n)) if isinstance(c, ast.Call))
+                                    for n in ("scan_resources", "_read_old_api", "_read_new_apis"))
+    facts = {"attachesDoneCallback": attaches, "callbackCancelsOrchestrator": cancels, "callbackIgnoresNotFound": ignores404,
+             "reraisesTaskError": reraises, "doneTasksAreRedundant": done_redundant, "scanGathers": gathers,
+             "scanCancelsInFinally": cancels_children, "scanUsesAsCompleted": uses_as_completed}
+    ctx.extra["extracted_facts"] = facts
+    text = ("/- GENERATED by harness/props/c20.py::extract from kopf/_core/reactor/orchestration.py and\n"
+            "   kopf/_cogs/clients/scanning.py — do not edit. -/\nnamespace Kopf.C20.Extracted\n"
+            + "".join(f"def {k} : Bool := {'true' if v else 'false'}\n" for k, v in facts.items())
+            + "end Kopf.C20.Extracted\n")
+    leanio.write_generated("Kopf/Extracted/C20.lean", text)
 
 
 # =================================================================================================
@@ -147,6 +233,7 @@ def abstract(obs: dict) -> list[list]:
     log = obs["log"]
     out: list[list] = []
     sub_end = {e[2]: e[4] for e in log if e[1] == "subEnd"}
+    sub_exc = {e[2]: e[5] for e in log if e[1] == "subEnd"}
     root_end = {e[2]: e[3] for e in log if e[1] == "rootEnd"}
     sub_stopping: set[int] = set()
     daemons: dict[tuple, int] = {}
@@ -157,6 +244,7 @@ def abstract(obs: dict) -> list[list]:
     orphans: set[int] = set()
     orphans_ended: set[int] = set()
     ended_roots: set[str] = set()
+    ended_subs: set[int] = set()
 
     def task(kind: str, ref: Any) -> list:
         if kind in ROOTS:
@@ -227,15 +315,23 @@ def abstract(obs: dict) -> list[list]:
         elif kind == "orchStopSubsBegin":
             if not a[1]:
                 put("rootStopping", "orchestrator", root_end.get("orchestrator") == "failed")
+            else:                       # terminate_redundancies: tasks of keys no longer served / with an exited task
+                for i in a[2]:
+                    if i not in ended_subs:
+                        put("subCancel", i)
         elif kind == "depletionBegin":
             if a[0] in ROOTS:
                 put("rootStopping", a[0], root_end.get(a[0]) == "failed")
             else:
                 sub_stopping.add(a[1])
-                put("subStopping", a[1], sub_end.get(a[1]) == "failed")
+                if sub_exc.get(a[1]) == "APINotFoundError":
+                    put("subGone", a[1])
+                else:
+                    put("subStopping", a[1], sub_end.get(a[1]) == "failed")
         elif kind == "subSpawn":
             put("subSpawn", a[0], a[1])
         elif kind == "subEnd":
+            ended_subs.add(a[0])
             put("subEnd", a[0], a[2])
         elif kind == "workerStart":
             owner = ["root", a[1]] if a[1] in ROOTS else ["sub", a[2]]
@@ -355,8 +451,9 @@ def oracle(sc: dict, obs: dict) -> tuple[list[tuple[str, dict]], dict]:
     for i in pos["rootEnd"]:
         if log[i][3] == "failed":
             failures.append((i, log[i][0], "root:" + log[i][2], log[i][4]))
+    gone = [i for i in pos["subEnd"] if log[i][4] == "failed" and log[i][5] == "APINotFoundError"]
     for i in pos["subEnd"]:
-        if log[i][4] == "failed":
+        if log[i][4] == "failed" and i not in gone:     # HTTP 404: the resource is gone — not a failure of the operator
             failures.append((i, log[i][0], "ensemble:" + log[i][3], log[i][5]))
     for i in pos["workerEnd"]:
         if log[i][3] == "failed":
@@ -420,6 +517,17 @@ def oracle(sc: dict, obs: dict) -> tuple[list[tuple[str, dict]], dict]:
                 fail("running.run_tasks", f"operator() did not return within the grace periods after a {kind0}",
                      f"trigger {kind0} at t={t0}, bound {bound_s(sc)} s, outcome {ret}")
     facts["is_lingering"] = lingering
+    facts["gone_watchers"] = len(gone)
+    # a resource that is gone is not a failure, and when it is served again it is watched again
+    for k, i in enumerate(pos["op"]):
+        if log[i][2] == "crd_create":
+            later = [j for j in pos["op"] if j > i and log[j][2] == "create" and log[j][0] >= log[i][0] + 1.0]
+            stops = [p for p, _t, _k in trig if p < (later[0] if later else 0)]
+            if later and not stops:
+                name = log[later[0]][3]
+                if not any(log[j][2] == "create" and log[j][4] == name for j in pos["hBegin"] if j > later[0]):
+                    fail("orchestration.terminate_redundancies", "a resource served again after its deletion is not watched again",
+                         f"CRD re-created at t={log[i][0]}, object {name!r} created at t={log[later[0]][0]}: no handler call")
 
     if ret is not None and not lingering:
         # the outcome of the run call
@@ -534,7 +642,7 @@ DAEMON_SHAPES = [
 ]
 TRIGGERS = ["flag", "flag", "cancel", "cancel", "watch_error_kex", "watch_error_crd", "watch_error_peering", "poison",
             "memo_poison", "discovery_500_initial", "discovery_500_rescan", "pinger_500", "startup_fail", "cleanup_fail",
-            "flag", "watch_error_kex"]
+            "flag", "watch_error_kex", "crd_gone"]
 PHASES = ["startup", "startup_end", "discovery", "spawning", "steady", "inflight"]
 
 
@@ -629,6 +737,18 @@ def gen_history(rng: Any, i: int, force: dict | None = None) -> dict:
     elif trigger == "pinger_500":
         sc["peering_faulted"] = True
         ops.append([t, "faults", {"method": "PATCH", "path_contains": "clusterkopfpeerings"}])
+    elif trigger == "crd_gone":
+        # the served CRD is deleted (the watcher meets HTTP 404: not a failure) and created again; then a new object.
+        # No objects exist meanwhile: a real API server deletes a CRD only after its instances (and their finalizers)
+        # are gone, while the fake API drops them at once — daemons of such objects would be left to the hung-task stop.
+        sc["crd_object"] = True
+        sc["objects"] = []
+        sc["handlers"] = [h for h in handlers if h["kind"] != "daemon"]
+        shape["daemons"] = []
+        gap = rng.choice([1 / TPS, 0.5, 3.0])
+        ops.append([t, "crd_delete"])
+        ops.append([t + gap, "crd_create"])
+        ops.append([t + gap + 2.0, "create", "late", 5])
     elif trigger in ("startup_fail",):
         pass
     elif trigger == "cleanup_fail":
@@ -638,7 +758,7 @@ def gen_history(rng: Any, i: int, force: dict | None = None) -> dict:
             "startup_fail": s_dur + 1.0, "memo_poison": t + 1.0}.get(trigger, t)
     b = bound_s(sc)
     probe = felt + b + 2.0
-    if objects:
+    if objects and trigger != "crd_gone":
         ops.append([probe, "edit", objects[0]["name"], 99])
     sc["ops"] = sorted(ops, key=lambda e: e[0])
     sc["end"] = probe + 8.0
@@ -712,7 +832,6 @@ def _evaluate(ctx: Ctx, histories: list[dict], tie: bool = True) -> None:
             raise RuntimeError(f"simulation error: {obs['sim_error']} in history seed {sc.get('seed')}")
         obs_list.append(obs)
     # the oracle on every implementation run, regardless of the model
-    f3_seen = False
     for sc, obs in zip(histories, obs_list):
         ctx.traces += 1
         bad, facts = oracle(sc, obs)
@@ -728,15 +847,14 @@ def _evaluate(ctx: Ctx, histories: list[dict], tie: bool = True) -> None:
             ctx.count("daemon_mode", d)
         ctx.count("peering", bool(sc.get("peering")))
         for what, sig in bad:
-            if sig == F3_SIG:
-                f3_seen = True
             ctx.oracle_fail(what, {"history": sc, "facts": facts, "returned": obs.get("returned"),
                                    "log_tail": obs["log"][-40:]}, sig)
     if not tie:
         return
-    # tie A: the driver must accept every label trace (model variant: as the code is, unless F3 is gone)
-    fixed = not f3_seen
-    ctx.extra["model_variant"] = "fixed" if fixed else "as-is (missing edge ensemble task -> orchestrator)"
+    # tie A: the driver must accept every label trace of the model of the current tree (`headCfg`: fixed := true;
+    # that this IS the variant of the source is re-checked from the AST by `extract` + Kopf/Tie/C20.lean)
+    fixed = True
+    ctx.extra["model_variant"] = "headCfg (fixed := true: failed ensemble task -> orchestrator)"
     reqs = [["C20.trace", model_cfg(sc, fixed), abstract(obs)] for sc, obs in zip(histories, obs_list)]
     try:
         outs = ctx.driver.ask(reqs)
